@@ -1,5 +1,6 @@
 #!/bin/bash
 # confirm_seed.sh <dir with patch.diff, seed_demo.rs> : in a scratch worktree of /repo, checks that
+# (SEED_FEATURES='--features x' adds cargo arguments to the demonstration runs)
 # the patch applies and compiles, the existing suite passes with it, the demo passes without it and
 # fails with it.  Prints one JSON line.
 set -u
@@ -7,9 +8,9 @@ D="$1"; W=$(mktemp -d /tmp/confirm-XXXXXX); rmdir "$W"
 git -C /repo worktree add -q --detach "$W" HEAD || exit 2
 export CARGO_NET_OFFLINE=true
 mkdir -p "$W/tests"; cp "$D/seed_demo.rs" "$W/tests/seed_demo.rs"
-( cd "$W" && cargo test --offline --test seed_demo >/tmp/$$.without 2>&1 ); without=$?
+( cd "$W" && cargo test --offline ${SEED_FEATURES:-} --test seed_demo >/tmp/$$.without 2>&1 ); without=$?
 ( cd "$W" && git apply "$D/patch.diff" ); applied=$?
-( cd "$W" && cargo test --offline --test seed_demo >/tmp/$$.with 2>&1 ); with=$?
+( cd "$W" && cargo test --offline ${SEED_FEATURES:-} --test seed_demo >/tmp/$$.with 2>&1 ); with=$?
 mv "$W/tests/seed_demo.rs" /tmp/$$.demo
 ( cd "$W" && cargo test --workspace --no-fail-fast --offline >/tmp/$$.suite 2>&1 ); suite=$?
 passed=$(grep -E "^test result: ok" /tmp/$$.suite | awk '{s+=$4} END {print s}')
